@@ -1,7 +1,8 @@
 /-
 Definitions shared by C13 (rows typed as declared), C21 (adapter calls honour the contract) and C09
 (no panic on accepted queries): the *decidable* hypotheses under which the engine model `Interp` is
-analysed, the contract-checking adapter, and the per-context invariant `CtxOK`.
+analysed and the contract-checking adapter (the per-context invariant `CtxOK` is in
+`Proofs/InterpInvCtx.lean`).
 
 All hypotheses are `Bool`-valued so that the driver (`Driver/EngineHyps.lean`) can evaluate them on
 every real request:
